@@ -14,6 +14,10 @@ pub mod findings;
 
 pub mod cbor;
 pub mod cmodel;
+pub mod jsonw;
+pub mod sample;
+pub mod sem;
+pub mod semgen;
 pub mod skel;
 pub mod syngen;
 
